@@ -255,6 +255,7 @@ def prune_cache(keep=150, min_age_s=6 * 3600):
 _lean_built = None
 
 
+HARNESS_DEGRADED = []      # reasons why a harness of this run observes less than usual (reported in the evidence)
 EXTRACTION_FALLBACK = []   # plugins whose patterns no longer match the tree on this run (last extracted values are used)
 
 
